@@ -186,6 +186,7 @@ type rtConfig struct {
 	stuck                     bool // a callback that never returns
 	noDone                    bool
 	focus                     string
+	saturate                  bool // mostly non-blocking reports; the first callback entered never returns
 }
 
 func (r *rtRun) ask(s string) string { return r.c.Drv.Ask(s) }
@@ -252,6 +253,14 @@ func (r *rtRun) genOp(rng *RNG, c *rtClient, cfg rtConfig) rtOp {
 		}
 	}
 	for {
+		if cfg.saturate && rng.Chance(85) {
+			v := (r.nextCtx*8 + rng.Intn(8)) * 4
+			if rng.Chance(15) {
+				v++ // invalid: rejected by Verify
+			}
+			op.Kind, op.Src, op.V, op.Blocking = "report", rng.Intn(cfg.nsrc), v, rng.Chance(25)
+			return op
+		}
 		switch x := rng.Intn(100); {
 		case x < 34:
 			op.Kind, op.Src, op.V, op.Blocking = "report", rng.Intn(cfg.nsrc), val(), rng.Chance(40)
@@ -331,6 +340,7 @@ type rtAction struct {
 	kind string
 	c    *rtClient
 	ctx  int
+	op   *rtOp // begin: a prescribed operation instead of a generated one
 }
 
 func runSchedule(c *Ctx, rng *RNG, cfg rtConfig) *rtRun {
@@ -415,8 +425,8 @@ func runSchedule(c *Ctx, rng *RNG, cfg rtConfig) *rtRun {
 			acts, ws = append(acts, rtAction{kind: "mon"}), append(ws, prof.mon)
 		}
 		if p, pt, data, _ := r.actors["cb"].status(); p {
-			stuckHere := cfg.stuck && pt == "calling" && strings.HasPrefix(data, "user:")
-			if stuckHere && !stuckActive && rng.Chance(30) {
+			stuckHere := cfg.stuck && pt == "calling" && (strings.HasPrefix(data, "user:") || cfg.saturate)
+			if stuckHere && !stuckActive && (cfg.saturate || rng.Chance(30)) {
 				stuckActive = true // this callback never returns (until shutdown)
 				r.logf("callback %s is now stuck", data)
 			}
@@ -500,7 +510,14 @@ func (r *rtRun) perform(rng *RNG, a rtAction, cfg rtConfig) bool {
 	case "cb":
 		return r.doStep("cb", false, func() { r.actors["cb"].releaseNow() })
 	case "begin":
-		op := r.genOp(rng, a.c, cfg)
+		op := rtOp{}
+		if a.op != nil {
+			r.nextCtx++
+			op = *a.op
+			op.Ctx = r.nextCtx
+		} else {
+			op = r.genOp(rng, a.c, cfg)
+		}
 		a.c.op = op
 		r.opCount[op.Kind]++
 		return r.doStep(fmt.Sprintf("begin %d %s %d", a.c.id, op.label(r, a.c), op.Ctx), false, func() {
@@ -543,6 +560,30 @@ func (r *rtRun) perform(rng *RNG, a rtAction, cfg rtConfig) bool {
 	return false
 }
 
+// drainOnce: one round of "release whatever is parked / ready / returned"; false when nothing moved
+func (r *rtRun) drainOnce(rng *RNG, cfg rtConfig) bool {
+	progressed := false
+	if p, _, _, _ := r.actors["mon"].status(); p {
+		r.perform(rng, rtAction{kind: "mon"}, cfg)
+		progressed = true
+	}
+	if p, pt, _, _ := r.actors["cb"].status(); p && !(cfg.stuck && pt == "calling" && r.stuckHandle >= 0) {
+		r.perform(rng, rtAction{kind: "cb"}, cfg)
+		progressed = true
+	}
+	for _, cl := range r.clients {
+		switch cl.statusNow() {
+		case "ready":
+			r.perform(rng, rtAction{kind: "cli", c: cl}, cfg)
+			progressed = true
+		case "returned":
+			r.perform(rng, rtAction{kind: "ack", c: cl}, cfg)
+			progressed = true
+		}
+	}
+	return progressed && r.hang == ""
+}
+
 // retStep: the step at which the client's call was observed to have returned
 func (r *rtRun) retStep(c *rtClient) int { return r.stepNo }
 
@@ -556,7 +597,48 @@ type rtReturn struct {
 // shutdown: cancel the Config context, then every client context, and run everything to the end.
 func (r *rtRun) shutdown(rng *RNG, cfg rtConfig) {
 	r.logf("shutdown phase")
-	if !r.rootCancelled {
+	// two ways to end: cancel the Config context, or let every watching source call Done (in a random order;
+	// the monitor must then exit by itself)
+	byDone := !cfg.noDone && !r.rootCancelled && r.mismatch == "" && len(r.clients) > 0 && rng.Chance(35)
+	if byDone {
+		r.logf("shutdown: every source calls Done")
+		order := make([]int, cfg.nsrc)
+		for i := range order {
+			order[i] = i
+		}
+		for i := len(order) - 1; i > 0; i-- {
+			j := rng.Intn(i + 1)
+			order[i], order[j] = order[j], order[i]
+		}
+		for _, src := range order {
+			// find (or free) a client, then run its Done call to completion
+			var cl *rtClient
+			for guard := 0; guard < 400 && cl == nil; guard++ {
+				for _, c := range r.clients {
+					if c.statusNow() == "idle" {
+						cl = c
+						break
+					}
+				}
+				if cl != nil {
+					break
+				}
+				if !r.drainOnce(rng, cfg) {
+					break
+				}
+			}
+			if cl == nil || r.hang != "" {
+				byDone = false
+				break
+			}
+			op := rtOp{Kind: "done", Src: src}
+			if !r.perform(rng, rtAction{kind: "begin", c: cl, op: &op}, cfg) && r.mismatch == "" {
+				return
+			}
+		}
+		r.byDone = byDone
+	}
+	if !byDone && !r.rootCancelled {
 		if !r.perform(rng, rtAction{kind: "cancel", ctx: 0}, cfg) {
 			return
 		}
@@ -583,6 +665,9 @@ func (r *rtRun) shutdown(rng *RNG, cfg rtConfig) {
 				}
 				progressed = true
 			case "running":
+				if _, _, _, monFin := r.actors["mon"].status(); r.byDone && cl.op.Kind == "done" && !monFin {
+					continue // a Done call waits for the monitor to take it; it is not abandoned
+				}
 				if !r.perform(rng, rtAction{kind: "cancel", ctx: cl.op.Ctx}, cfg) {
 					return
 				}
@@ -605,8 +690,15 @@ func (r *rtRun) shutdown(rng *RNG, cfg rtConfig) {
 	_, _, _, monFin := r.actors["mon"].status()
 	_, _, _, cbFin := r.actors["cb"].status()
 	if !monFin || !cbFin {
-		r.hang = fmt.Sprintf("after shutdown: monitor finished=%v callback goroutine finished=%v (%s)", monFin, cbFin, r.obs())
+		how := "after shutdown"
+		if r.byDone {
+			how = "after every watching source called Done (the Config context is still alive)"
+		}
+		r.hang = fmt.Sprintf("%s: monitor finished=%v callback goroutine finished=%v (%s)", how, monFin, cbFin, r.obs())
 		return
+	}
+	if r.byDone && !r.rootCancelled {
+		r.perform(rng, rtAction{kind: "cancel", ctx: 0}, cfg) // release the contexts
 	}
 	// API calls issued after shutdown must fail (never panic, never report success, never block past their context)
 	for _, cl := range r.clients {
